@@ -5,10 +5,32 @@
 
 package attester
 
-//@ // MergeDuties uses sort.Slice with comparison closures and is outside the verifier's Go subset: this contract is
-//@ // assumed at call sites (trusted), not proved. It only states that the function returns non-nil duties and does
-//@ // not touch state of its callers.
-//@ func MergeDuties
-//@   trusted
-//@   ensures result1 == nil ==> forall k int :: 0 <= k && k < len(result0) ==> result0[k] != nil
+//@ func NewDuty
+//@   ensures result1 == nil ==> result0 != nil && fresh(result0)
+//@   ensures result1 != nil ==> result0 == nil
 //@   modifies nothing
+//@
+//@ func MergeDuties
+//@   // go-eth2-client's attester duty decoders deliver no nil entries (its own range check dereferences each)
+//@   requires forall k int :: 0 <= k && k < len(attesterDuties) ==> attesterDuties[k] != nil
+//@   loop 1
+//@     invariant forall k int :: 0 <= k && k < len(attesterDuties) ==> attesterDuties[k] != nil
+//@     invariant forall s phase0.Slot :: in(validatorIndices, s) ==> in(committeeLengths, s) && committeeLengths[s] != nil
+//@     // everything the loop appends to or stores into was allocated here
+//@     invariant forall s phase0.Slot :: fresh(validatorIndices[s]) && fresh(committeeIndices[s]) && fresh(validatorCommitteeIndices[s])
+//@     invariant forall s phase0.Slot :: in(committeeLengths, s) ==> fresh(committeeLengths[s])
+//@   loop 2
+//@     invariant forall k int :: 0 <= k && k < len(duties) ==> duties[k] != nil
+//@   ensures result1 == nil
+//@   ensures forall k int :: 0 <= k && k < len(result0) ==> result0[k] != nil
+//@   // the duties handed in are sorted in place
+//@   modifies contents(attesterDuties)
+//@
+//@ // the comparison functions handed to sort.Slice: called with indices inside the slice being sorted
+//@ func MergeDuties$1
+//@   requires 0 <= i && i < len(attesterDuties) && 0 <= j && j < len(attesterDuties)
+//@   requires forall k int :: 0 <= k && k < len(attesterDuties) ==> attesterDuties[k] != nil
+//@
+//@ func MergeDuties$2
+//@   requires 0 <= i && i < len(duties) && 0 <= j && j < len(duties)
+//@   requires forall k int :: 0 <= k && k < len(duties) ==> duties[k] != nil
